@@ -1,7 +1,7 @@
 """C10 — strictness only filters; strict results never borrow from the clock (E1, metamorphic)."""
 from datetime import datetime
 
-from .. import api, corpus
+from .. import api, clock, corpus
 from ..space import Product
 
 ID = "C10"
@@ -19,11 +19,12 @@ CHUNK = 400
 B1 = datetime(2001, 2, 3, 4, 5, 6)
 B2 = datetime(2019, 11, 28, 17, 42, 0)
 MODES = [("strict", None)] + [("require", ps) for ps in (["day"], ["month"], ["year"], ["day", "month"], ["day", "year"],
-                                                         ["month", "year"], ["day", "month", "year"])]
+                                                         ["month", "year"], ["day", "month", "year"])] + [
+    ("strict+require", ps) for ps in (["year"], ["month"], ["day"], ["month", "year"])]
 PCS = {
     "absolute": (["absolute-time"], None),
     "default-minus-relative": (["timestamp", "custom-formats", "absolute-time"], None),
-    "custom-formats": (["custom-formats", "absolute-time"], ["%d %B %Y", "%B %Y", "%Y-%m-%d", "%d %B", "%H:%M"]),
+    "custom-formats": (["custom-formats", "absolute-time"], ["%d %B %Y", "%B %Y", "%Y-%m-%d", "%d %B", "%H:%M", "%d %Y", "%d %Y %H:%M"]),
 }
 _S = None
 
@@ -33,13 +34,17 @@ def strings():
     if _S is None:
         gen = corpus.generated()
         cor = corpus.corpus()
-        _S = [("gen", g["lang"], g["string"], g["parts"]) for g in gen] + [("corpus", loc, s, None) for s, loc in cor]
+        # day numbers that do not exist in every month (the custom-format parser takes a missing month from the clock)
+        extra = [("gen", "en", x, p) for x, p in (("31 2015", ("day", "year")), ("30 2015 10:45", ("day", "year", "time")),
+                                                  ("29 2013", ("day", "year")), ("31 May 2015", ("day", "month", "year")),
+                                                  ("31", ("day",)), ("30 10:45", ("day", "time")))]
+        _S = [("gen", g["lang"], g["string"], g["parts"]) for g in gen] + extra + [("corpus", loc, s, None) for s, loc in cor]
     return _S
 
 
 def spaces(tier, seed):
     S = strings()
-    modes = range(len(MODES)) if tier == "thorough" else [0, 1, 2, 3, 7]
+    modes = range(len(MODES)) if tier == "thorough" else [0, 1, 2, 3, 7, 8, 9]
     return [Product("strings-x-parsers-x-modes", {"s": range(len(S)), "pc": list(PCS), "mode": modes},
                     note="%d generated + %d corpus strings" % (sum(1 for x in S if x[0] == "gen"), sum(1 for x in S if x[0] == "corpus")))]
 
@@ -55,10 +60,24 @@ def _parse(s, lang, pc, base, extra, gen=False):
         # is year-first from reading the lone two-digit number as a year
         st["DATE_ORDER"] = "DMY"
     st.update(extra)
-    o = api.outcome_of(api.gdd, s, [lang], None, None, st, fmts, False, False)
+    # the reference time is both RELATIVE_BASE and the (virtual) clock: the custom-format parser reads the clock
+    clock.freeze(base)
+    try:
+        o = api.outcome_of(api.gdd, s, [lang], None, None, st, fmts, False, False)
+    finally:
+        clock.freeze(None)
     if o[0] == "exc":
         return ("exc", o[1], o[3])
     return o[1].date_obj
+
+
+def init_worker(tier, seed):
+    clock.install()
+
+
+def selfcheck():
+    import dateparser
+    clock.prove(dateparser.parse)
 
 
 def unrestricted(si, s, lang, pc, gen):
@@ -74,7 +93,9 @@ def run_case(sub, c):
     src, lang, s, parts = strings()[c["s"]]
     kind, req = MODES[c["mode"]]
     extra = {"STRICT_PARSING": True} if kind == "strict" else {"REQUIRE_PARTS": list(req)}
-    required = ("day", "month", "year") if kind == "strict" else tuple(req)
+    if kind == "strict+require":
+        extra["STRICT_PARSING"] = True
+    required = ("day", "month", "year") if kind.startswith("strict") else tuple(req)
     gen = parts is not None
     u1, u2 = unrestricted(c["s"], s, lang, c["pc"], gen)
     r1 = _parse(s, lang, c["pc"], B1, extra, gen)
@@ -89,7 +110,7 @@ def run_case(sub, c):
         elif u1 is not None and u2 is not None and (r1 is None) != (r2 is None):
             prob = "filter decision depends on the reference time"
         elif r1 is not None:
-            if kind == "strict" and r1 != r2:
+            if kind.startswith("strict") and r1 != r2:
                 prob = "strict result depends on the reference time"
             elif kind == "require" and any(getattr(r1, p) != getattr(r2, p) for p in required):
                 prob = "a required part depends on the reference time"
